@@ -436,6 +436,27 @@ def _it_cell(make, infinite, async_source=False):
     return cell
 
 
+def _tee_replay_cell(shape, advance):
+    """Traverse one tee branch over values another branch has already pulled into the shared buffer."""
+    async def cell(pre, tg):
+        a, b = ait.tee(_src(shape), 2)
+        k = 0
+        async for _ in a:          # done before the marker / the cancelled scope: not part of the judged call
+            k += 1
+            if advance == "one":
+                break
+        info = {"n": 0}
+
+        async def call():
+            async for _ in b:
+                info["n"] += 1
+
+        call.demand = lambda: (shape not in ASYNC_SHAPES) or info["n"] == 0
+        return call, (lambda: None), (lambda d: None), None
+
+    return cell
+
+
 def _reduce_cell(kind):
     async def cell(pre, tg):
         got = []
@@ -497,6 +518,9 @@ for _name, _mk in IT.items():
         CELLS[f"it_{_name}:{_shape}"] = _it_cell((lambda m=_mk, s=_shape: m(s)),
                                                  _name in INFINITE and _shape not in ("empty", "aempty"),
                                                  _shape in ASYNC_SHAPES)
+for _shape in SHAPES:
+    for _adv in ("all", "one"):
+        CELLS[f"it_tee_replay_{_adv}:{_shape}"] = _tee_replay_cell(_shape, _adv)
 for _name, _mk in IT_NOSRC.items():
     CELLS[f"it_{_name}"] = _it_cell(_mk, _name in INFINITE)
 
